@@ -5,6 +5,7 @@ Correspondence: the compiled Lean model `drv_c15` (Model/C15.lean) against the r
 `pack9._expand_to_short` on the same byte streams.  Oracle: the format restated with Python
 integers / Fractions (divmod arithmetic, no bit operations), independent of the model.
 """
+from vcommon import pure
 import os
 
 os.environ['NUMBA_BOUNDSCHECK'] = '1'   # must precede the first numba import in this process
@@ -354,7 +355,7 @@ def run_impl(c, entry):
             _v = np.full((n, 3), SENT, dtype=dt) if c['vo'] == 'A' else vb
             with warnings.catch_warnings(), np.errstate(all='ignore'):
                 warnings.simplefilter('ignore')
-                npart = pack9._unpack_pack9.py_func(data, c['box'], c['velz'], _p, _v, dt)
+                npart = pure(pack9._unpack_pack9)(data, c['box'], c['velz'], _p, _v, dt)
             rp = _p[:npart] if c['po'] == 'A' else (0 if c['po'] == 'F' else npart)
             rv = _v[:npart] if c['vo'] == 'A' else (0 if c['vo'] == 'F' else npart)
     except ZeroDivisionError:
